@@ -97,6 +97,9 @@ func c19Drivers() []*icCfg {
 		{Name: "R9d-hybrid-loading", O: small, Hy: &hyIcCfg{Workers: 1, Prob: 1}, Loading: true, LoadCost: 1, LoadTTL: long, Pre: []icOp{T(1, long), T(2, long), W, Z}, Scripts: [][]icOp{{L(1)}, {T(1, long)}}},
 		{Name: "R9e-hybrid-close-3", O: small, Hy: &hyIcCfg{Workers: 1, Prob: 1}, Pre: []icOp{T(1, long), T(2, long), W}, Scripts: [][]icOp{{{Kind: "close"}}, {H(1), T(3, long)}}},
 		{Name: "R9f-hybrid-loading-3", O: small, Hy: &hyIcCfg{Workers: 1, Prob: 1}, Loading: true, LoadCost: 1, LoadTTL: long, Pre: []icOp{T(1, long), T(2, long), W, Z}, Scripts: [][]icOp{{L(1)}, {T(1, long)}, {L(3)}}},
+		// SaveCache against expiry and eviction; a loading Get against Close and the tick
+		{Name: "R1b-save-vs-tick-evict", O: small, Pre: []icOp{T(1, sec)}, Scripts: [][]icOp{{{Kind: "persist"}}, {tick}, {S(2)}}},
+		{Name: "R5b-loading-vs-close-tick", O: big, Loading: true, LoadCost: 1, LoadTTL: sec, Pre: []icOp{L(2)}, Scripts: [][]icOp{{L(1)}, {{Kind: "close"}}, {tick}}},
 		{Name: "R5-loading", O: big, Loading: true, LoadCost: 1, Scripts: [][]icOp{{L(1), G(1)}, {L(1)}, {S(1), D(1)}}},
 		{Name: "R6-update-vs-evict", O: small, Pre: []icOp{S(1)}, Scripts: [][]icOp{{S(1), S(1)}, {S(2)}, {G(1), {Kind: "range"}}}},
 		// read buffer with every atomic a scheduling point and capacity 2 (build schedTrackBuf): drains, Free and refills overlap
